@@ -20,6 +20,7 @@ import (
 	"strings"
 	"sync"
 	"sync/atomic"
+	"syscall"
 	"testing"
 	"time"
 
@@ -133,6 +134,32 @@ func TestC18Shutdown(t *testing.T) {
 		}
 	}()
 	httpUpURL, _ := url.Parse(httpUp.URL)
+	// an upstream that never completes the TCP handshake: a listening socket with a full accept queue
+	stalledAddr := ""
+	if fd, err := syscall.Socket(syscall.AF_INET, syscall.SOCK_STREAM, 0); err == nil {
+		if syscall.Bind(fd, &syscall.SockaddrInet4{Addr: [4]byte{127, 0, 0, 1}}) == nil && syscall.Listen(fd, 0) == nil {
+			sa, _ := syscall.Getsockname(fd)
+			addr := fmt.Sprintf("127.0.0.1:%d", sa.(*syscall.SockaddrInet4).Port)
+			var keep []net.Conn
+			for i := 0; i < 8; i++ {
+				c, err := net.DialTimeout("tcp", addr, 300*time.Millisecond)
+				if err != nil {
+					stalledAddr = addr
+					break
+				}
+				keep = append(keep, c)
+			}
+			defer func() {
+				for _, c := range keep {
+					c.Close()
+				}
+				syscall.Close(fd)
+			}()
+		}
+	}
+	if stalledAddr == "" {
+		hx.Note("no stalling upstream available in this kernel: 'tcp listener dialling a stalled upstream' is not part of the mixes")
+	}
 
 	cfg, err := config.Load([]string{"fabio"}, nil)
 	if err != nil {
@@ -143,7 +170,11 @@ func TestC18Shutdown(t *testing.T) {
 	hx.Check(t, hx.Scale(12, 150), func(t *rapid.T) {
 		W := time.Duration(rapid.IntRange(200, 1500).Draw(t, "W_ms")) * time.Millisecond
 		kinds := []string{}
-		for _, k := range []string{"http", "tcp", "tcp+sni", "grpc", "https+tcp+sni"} {
+		all := []string{"http", "tcp", "tcp+sni", "grpc", "https+tcp+sni"}
+		if stalledAddr != "" {
+			all = append(all, "tcp(stalled-upstream)")
+		}
+		for _, k := range all {
 			if rapid.Bool().Draw(t, "with-"+k) {
 				kinds = append(kinds, k)
 			}
@@ -160,6 +191,10 @@ func TestC18Shutdown(t *testing.T) {
 			if k == "tcp" {
 				_, port, _ := net.SplitHostPort(addrs[k])
 				tblText += fmt.Sprintf("route add t :%s tcp://%s\n", port, tcpUp.Addr())
+			}
+			if k == "tcp(stalled-upstream)" {
+				_, port, _ := net.SplitHostPort(addrs[k])
+				tblText += fmt.Sprintf("route add stalled :%s tcp://%s\n", port, stalledAddr)
 			}
 		}
 		tbl, err := route.NewTable(bytes.NewBufferString(tblText))
@@ -188,6 +223,9 @@ func TestC18Shutdown(t *testing.T) {
 					proxy.ListenAndServeHTTP(l, httpHandler, nil)
 				case "tcp":
 					proxy.ListenAndServeTCP(l, &tcp.Proxy{Lookup: lookupHost, DialTimeout: time.Second}, nil)
+				case "tcp(stalled-upstream)":
+					l.Proto = "tcp"
+					proxy.ListenAndServeTCP(l, &tcp.Proxy{Lookup: lookupHost, DialTimeout: 30 * time.Second}, nil)
 				case "tcp+sni":
 					proxy.ListenAndServeTCP(l, &tcp.SNIProxy{Lookup: lookupHost, DialTimeout: time.Second}, nil)
 				case "grpc":
@@ -232,6 +270,9 @@ func TestC18Shutdown(t *testing.T) {
 					wk.kind = "http"
 				case "tcp":
 					wk.kind = "tcp"
+				case "tcp(stalled-upstream)":
+					wk.kind, wk.short, wk.dur = "tcp-dialling", false, -1
+					hasNever = true
 				case "tcp+sni":
 					wk.kind = "sni"
 				case "grpc":
@@ -350,6 +391,18 @@ func runWork(h *grpcHarness, wk *work, addr string) {
 			return
 		}
 		finish("")
+	case "tcp-dialling": // the proxy is still inside the upstream dial when shutdown begins
+		c, err := net.Dial("tcp", addr)
+		if err != nil {
+			close(wk.started)
+			finish("dial: " + err.Error())
+			return
+		}
+		defer c.Close()
+		time.Sleep(30 * time.Millisecond)
+		close(wk.started)
+		io.Copy(io.Discard, c)
+		finish("closed")
 	case "tcp", "sni", "sni@https":
 		c, err := net.Dial("tcp", addr)
 		if err != nil {
